@@ -91,29 +91,172 @@ class Cfg:
         self._pdom = None
         self._rf = {}
 
-    def reachable(self, start=0, cut_edges=(), cut_nodes=()):
-        """Blocks reachable from `start` without using cut edges / entering cut nodes."""
+    # -- variant-sensitive reachability ---------------------------------------------------------------------------
+    # A switch on the discriminant of a Result / Option / ControlFlow that was just *built* on this path (`_x = Err(..)`,
+    # moved around, passed through `?`'s Try::branch) has only one feasible arm. Ignoring that makes "the insert is reachable
+    # from the rejection arm" true whenever the rejection is computed in one place and acted on in another (a helper that
+    # returns Result<()> followed by `?`, a `let res = ...; if res.is_err()` — or the same code after inlining). The
+    # traversal therefore carries, for temporaries whose address is never taken, the variant they are known to hold.
+    _VAR = {"Ok": 0, "Err": 1, "None": 0, "Some": 1, "Continue": 0, "Break": 1, "Ready": 0, "Pending": 1}
+    _BRANCH = {"Ok": "Continue", "Some": "Continue", "Err": "Break", "None": "Break"}
+
+    def _ps_prepare(self):
+        if getattr(self, "_ps", None) is not None:
+            return self._ps
+        body = self.body
+        untracked = set()
+        for b in body.blocks:
+            for st in b.stmts:
+                if st.k == "assign":
+                    if st.rv.k in ("ref", "rawptr") and st.rv.place is not None:
+                        untracked.add(st.rv.place.local)
+                    if st.place.proj:
+                        untracked.add(st.place.local)
+        ops = {}
+        interesting = False
+        for b in body.blocks:
+            if b.cleanup:
+                continue
+            seq = []
+            for st in b.stmts:
+                if st.k != "assign":
+                    continue
+                L = st.place.local
+                if st.place.proj or L in untracked:
+                    continue
+                rv = st.rv
+                if rv.k == "agg" and rv.j.get("agg") == "adt" and rv.j.get("variant") in self._VAR:
+                    seq.append(("set", L, rv.j["variant"]))
+                elif rv.k == "use" and rv.ops and rv.ops[0].place is not None and not rv.ops[0].place.proj:
+                    seq.append(("copy", L, rv.ops[0].place.local))
+                elif rv.k == "discr" and rv.place is not None and not rv.place.proj:
+                    seq.append(("discr", L, rv.place.local))
+                else:
+                    seq.append(("kill", L))
+            t = b.term
+            sw = None
+            if t.k == "call" and t.dest is not None and not t.dest.proj and t.dest.local not in untracked:
+                if t.callee is not None and t.callee.path.endswith("Try::branch") and t.args and t.args[0].place is not None \
+                        and not t.args[0].place.proj:
+                    seq.append(("branch", t.dest.local, t.args[0].place.local))
+                elif t.callee is not None and t.callee.path.endswith("FromResidual::from_residual"):
+                    # the value built from a residual is the failure variant of its type
+                    sh = (t.callee.self_head or {}).get("path", "")
+                    if sh.endswith("::Result"):
+                        seq.append(("set", t.dest.local, "Err"))
+                    elif sh.endswith("::Option"):
+                        seq.append(("set", t.dest.local, "None"))
+                    else:
+                        seq.append(("kill", t.dest.local))
+                else:
+                    seq.append(("kill", t.dest.local))
+            elif t.k == "switch" and t.discr.place is not None and not t.discr.place.proj:
+                sw = t.discr.place.local
+                interesting = True
+            ops[b.i] = (seq, sw)
+        self._ps = (ops, interesting)
+        return self._ps
+
+    def _ps_step(self, u, state):
+        """Apply block u's effects to `state` (dict local -> value); returns (new state, feasible successors)."""
+        ops, _ = self._ps
+        seq, sw = ops.get(u, ((), None))
+        st = dict(state)
+        for op in seq:
+            k = op[0]
+            if k == "set":
+                st[op[1]] = op[2]
+            elif k == "copy":
+                v = st.get(op[2])
+                if v is not None:
+                    st[op[1]] = v
+                else:
+                    st.pop(op[1], None)
+            elif k == "discr":
+                v = st.get(op[2])
+                if v is not None and not isinstance(v, tuple):
+                    st[op[1]] = ("d", v)
+                else:
+                    st.pop(op[1], None)
+            elif k == "branch":
+                v = st.get(op[2])
+                if v in self._BRANCH:
+                    st[op[1]] = self._BRANCH[v]
+                else:
+                    st.pop(op[1], None)
+            else:
+                st.pop(op[1], None)
+        succ = self.succ[u]
+        self._ps_known = False
+        if sw is not None:
+            v = st.get(sw)
+            if isinstance(v, tuple) and v[0] == "d":
+                idx = self._VAR.get(v[1])
+                t = self.body.blocks[u].term
+                tgt = None
+                for val, blk in t.targets:
+                    if val == idx:
+                        tgt = blk
+                if tgt is None:
+                    tgt = t.otherwise
+                succ = [x for x in succ if x == tgt]
+                self._ps_known = True
+        return st, succ
+
+    def reachable(self, start=0, cut_edges=(), cut_nodes=(), sensitive=True):
+        """Blocks reachable from `start` without using cut edges / entering cut nodes. Variant-sensitive (see above) unless
+        `sensitive` is False."""
         cut_edges = set(cut_edges)
         cut_nodes = set(cut_nodes)
         seen = set()
         if start in cut_nodes:
             return seen
-        dq = deque([start])
+        ops, interesting = self._ps_prepare()
+        if not sensitive or not interesting:
+            dq = deque([start])
+            seen.add(start)
+            while dq:
+                u = dq.popleft()
+                for v in self.succ[u]:
+                    if (u, v) in cut_edges or v in cut_nodes or v in seen:
+                        continue
+                    seen.add(v)
+                    dq.append(v)
+            return seen
+        # (block, state) worklist; once a block has been entered in too many states it is entered once more with no knowledge
+        visited = {}
+        dq = deque([(start, ())])
+        visited[start] = {()}
         seen.add(start)
         while dq:
-            u = dq.popleft()
-            for v in self.succ[u]:
-                if (u, v) in cut_edges or v in cut_nodes or v in seen:
+            u, skey = dq.popleft()
+            st, succ = self._ps_step(u, dict(skey))
+            known = self._ps_known
+            nkey = tuple(sorted(st.items(), key=repr))
+            for v in succ:
+                # a cut edge is the passing edge of a *decision*; a switch whose operand is a known constant on this path
+                # (a value built by an inlined helper's `return None` / `Err(..)?`) decides nothing here
+                if ((u, v) in cut_edges and not known) or v in cut_nodes:
                     continue
+                vs = visited.setdefault(v, set())
+                k = nkey
+                if len(vs) >= 24:
+                    k = ()
+                if k in vs or () in vs and k != ():
+                    if () in vs:
+                        continue
+                    if k in vs:
+                        continue
+                vs.add(k)
                 seen.add(v)
-                dq.append(v)
+                dq.append((v, k))
         return seen
 
     def reach_from(self, b):
         """Blocks reachable from b (b included)."""
         r = self._rf.get(b)
         if r is None:
-            r = self.reachable(b)
+            r = self.reachable(b, sensitive=False)     # structural (ordering / dominance use)
             self._rf[b] = r
         return r
 
@@ -122,7 +265,7 @@ class Cfg:
 
     def live(self):
         if self._reach is None:
-            self._reach = self.reachable(0)
+            self._reach = self.reachable(0, sensitive=False)    # structural liveness: dominators / loops are computed on it
         return self._reach
 
     def path_to(self, target, start=0, cut_edges=(), cut_nodes=()):
